@@ -138,6 +138,41 @@ int main(int argc, char** argv) {
     } else if (kind == "cond") {
       r.set("min", evalArith(c["fmin"].asStr(), 1.)).set("full", evalArith(c["ffull"].asStr(), 1.));
       r.set("cxx", cxxFormula(c["fmin"].asStr()));
+    } else if (kind == "deps") {
+      using namespace tfel::math::parser;
+      const double d0 = double(c["d0"].asInt());
+      auto exactly = [](const std::function<double()>& f, const double den) {
+        Json o = Json::object();
+        try {
+          const double v = f();
+          const auto e = vp::exact(v, den, 1e-9 * std::max(1.0, std::fabs(v * den)));
+          o.set("got", Json("value")).set("q", Json(e.q)).set("tight", Json(e.tight));
+        } catch (std::exception&) {
+          o.set("got", Json("throw")).set("q", Json(0)).set("tight", Json(false));
+        }
+        return o;
+      };
+      auto manager = std::make_shared<ExternalFunctionManager>();
+      auto build = [&] {
+        manager->operator[]("p") = std::make_shared<Evaluator>(std::vector<std::string>{}, c["pf"].asStr(), manager);
+        manager->operator[]("q") = std::make_shared<Evaluator>(std::vector<std::string>{}, c["qf"].asStr(), manager);
+        manager->operator[]("f") = std::make_shared<Evaluator>(std::vector<std::string>{"u"}, c["ff"].asStr(), manager);
+        return std::make_shared<Evaluator>(VARS, c["formula"].asStr(), manager);
+      };
+      r.set("direct_", exactly([&] { auto g = build(); g->setVariableValue("x", X); g->setVariableValue("y", Y); return g->getValue(); }, d0));
+      r.set("resolved", exactly([&] { auto g = build(); auto h = g->resolveDependencies(); h->setVariableValue(0, X); h->setVariableValue(1, Y); return h->getValue(); }, d0));
+      // the value of p in the model: its own formula evaluated
+      double pval = 0;
+      try { pval = Evaluator(std::vector<std::string>{}, c["pf"].asStr()).getValue(); } catch (std::exception&) {}
+      auto asvar = [&](const double pv, const bool resolve) {
+        auto g = build();
+        auto h = g->createFunctionByChangingParametersIntoVariables(std::vector<std::string>{"p"});
+        if (resolve) h = h->resolveDependencies();
+        if (h->getNumberOfVariables() != 3) throw std::runtime_error("unexpected number of variables");
+        h->setVariableValue(0, X); h->setVariableValue(1, Y); h->setVariableValue(2, pv);
+        return h->getValue();
+      };
+      r.set("asvar", exactly([&] { return asvar(pval, false); }, d0)).set("asvarres", exactly([&] { return asvar(pval, true); }, d0));
     } else if (kind == "silent") {
       const auto o = evalArith(c["formula"].asStr(), double(c["den"].asInt()));
       r.set("got", o["got"]).set("q", o["q"]).set("tight", o["tight"]);
